@@ -90,6 +90,10 @@ def run_batch(prop, seed, runs, tier, gen_opts=None, keep_traces=False, errdir=N
             env["PYTHONDONTWRITEBYTECODE"] = "1"
             if repo:
                 env["VERIF_REPO"] = repo
+            # VERIF_MAX_PARALLEL (self-test only): run the 16 lanes in waves; results must not depend on it
+            maxpar = int(os.environ.get("VERIF_MAX_PARALLEL") or N_LANES)
+            while len([1 for _, _, q in procs if q.poll() is None]) >= maxpar:
+                time.sleep(0.05)
             procs.append((lane, cfg, subprocess.Popen([PYTHON, os.path.join(VERIF, "sim", "worker.py"), cp], env=env, cwd="/",
                                                       stdin=subprocess.DEVNULL)))
         deadline = t0 + (wall_cap or WALL_CAP_S[tier])
